@@ -164,8 +164,12 @@ func (b *BoundedBacktracker) reset(state *BacktrackerState, haystackLen int) {
 	state.Generation++
 	// Handle overflow by clearing array (every 65536 searches - rare)
 	if state.Generation == 0 {
-		for i := range state.Visited {
-			state.Visited[i] = 0
+		// Clear the whole backing array, not only the current length: stamps left
+		// beyond len by an earlier, larger search would otherwise survive the wrap
+		// and collide with a later generation once the slice is re-extended.
+		full := state.Visited[:cap(state.Visited)]
+		for i := range full {
+			full[i] = 0
 		}
 		state.Generation = 1
 	}
@@ -291,8 +295,10 @@ func (b *BoundedBacktracker) SearchAtWithState(haystack []byte, at int, state *B
 		state.Generation++
 		// Handle overflow by resetting the array (every 256 searches)
 		if state.Generation == 0 {
-			for i := range state.Visited {
-				state.Visited[i] = 0
+			// Clear up to capacity (see reset): stale stamps beyond len must not survive the wrap.
+			full := state.Visited[:cap(state.Visited)]
+			for i := range full {
+				full[i] = 0
 			}
 			state.Generation = 1
 		}
